@@ -373,7 +373,15 @@ pub fn run_framed(stream: &[u8], reads: Vec<Rd>, polls: usize) -> String {
     let mut obs = vec![];
     let mut delivered = 0usize;
     for _ in 0..polls {
-        match Pin::new(&mut fr).poll_next(&mut cx) {
+        let polled = std::panic::catch_unwind(std::panic::AssertUnwindSafe(|| Pin::new(&mut fr).poll_next(&mut cx)));
+        let polled = match polled {
+            Ok(p) => p,
+            Err(_) => {
+                obs.push("PANIC".to_string());
+                break;
+            }
+        };
+        match polled {
             Poll::Pending => {
                 // how many bytes has the transport handed over so far?
                 let got: usize = io.0.borrow().log.iter().filter(|l| l.starts_with('r') && l.len() > 1 && l.as_bytes()[1].is_ascii_digit()).map(|l| l[1..].parse::<usize>().unwrap()).sum();
@@ -410,6 +418,11 @@ fn gen_stream(rng: &mut Rng) -> Vec<u8> {
     let n = 1 + rng.below(12);
     let mut s = vec![];
     for _ in 0..n {
+        // a stray line end between responses (a quirky server's blank line, a lone CR or LF): malformed input
+        if rng.chance(1, 24) {
+            let stray: &[u8] = *rng.pick(&[&b"\r\n"[..], &b"\r"[..], &b"\n"[..], &b"\r\r\n"[..]]);
+            s.extend_from_slice(stray);
+        }
         match rng.below(8) {
             0 => {
                 // a multi-kilobyte or empty literal
@@ -427,6 +440,11 @@ fn gen_stream(rng: &mut Rng) -> Vec<u8> {
                     s.extend(e);
                 }
             }
+        }
+        // a response ended by a bare LF (quirky server): malformed from there on
+        if rng.chance(1, 40) && s.ends_with(b"\r\n") {
+            let k = s.len() - 2;
+            s.remove(k);
         }
     }
     match rng.below(6) {
@@ -471,7 +489,9 @@ pub fn framed_main(args: &[String]) {
     std::panic::set_hook(Box::new(|_| {}));
     let mut rng = Rng::new(seed);
     // regression corpus: short final responses at every cut (the size-hint defect 479ba35 withheld `* OK [Mail]`)
-    for c in [&b"* OK [Mail]\r\n"[..], b"* SORT\r\n", b"* SEARCH\r\n", b"+ \r\n", b"* 1 EXISTS\r\n", b"A1 OK\r\n", b"* OK [M] x\r\n", b"* LIST () NIL x\r\n", b"* 1 FETCH (UID 1)\r\n* S 1\r\n"] {
+    for c in [&b"* OK [Mail]\r\n"[..], b"* SORT\r\n", b"* SEARCH\r\n", b"+ \r\n", b"* 1 EXISTS\r\n", b"A1 OK\r\n", b"* OK [M] x\r\n", b"* LIST () NIL x\r\n", b"* 1 FETCH (UID 1)\r\n* S 1\r\n",
+              b"* OK a\r\n\r\n* OK b\r\n", b"\r\n* 1 EXISTS\r\n", b"* 1 EXISTS\r\n\r", b"* LIST (\\HasNoChildren) \"/\" {5}\r\nINBOX\r\n",
+              b"* LSUB () \".\" {0}\r\n\r\n* 2 EXISTS\r\n", b"* STATUS {3}\r\nabc (MESSAGES 1)\r\n* SEARCH 1 2\r\n"] {
         for cut in 1..c.len() {
             let reads = vec![Rd::Chunk(c[..cut].to_vec()), Rd::NotReady, Rd::Chunk(c[cut..].to_vec()), Rd::NotReady];
             println!("{}", run_framed(c, reads, 12));
